@@ -25,7 +25,7 @@ def plan(tier, seed):
 
 
 def make_case(rng):
-    case = gen.pipeline_case(rng, CLASSES, param_prob=0.0)
+    case = gen.long_molecule_case(rng, nq=rng.randint(6, 12)) if rng.random() < 0.15 else gen.pipeline_case(rng, CLASSES, param_prob=0.0)
     P = case['params']
     if rng.random() < 0.7:
         P['sp'] = rng.choice([1000, 800, 1500, 600])
